@@ -39,6 +39,9 @@ func (p LLC) Payload() []byte {
 	if p.Type() == "u" {
 		return p[3:]
 	}
+	if len(p) < 4 { // 16 bit control field is truncated
+		return nil
+	}
 	return p[4:]
 }
 
